@@ -45,7 +45,7 @@ func ruleC06Stack(c *Ctx) {
 				if !ok || c.ownerName(fa.X.Type()) != "state" {
 					return
 				}
-				f := core.StructField(fa.X.Type(), fa.Field).Name()
+				f := core.CanonFieldOf(fa.X.Type(), fa.Field)
 				w := stWrite{fn, x, f}
 				if f != "stack" {
 					// initialisation of a fresh state in an entry point is fine
@@ -532,7 +532,7 @@ func ruleC06Fallback(c *Ctx) {
 			if !ok || c.ownerName(fa.X.Type()) != "resolvedInfo" {
 				return
 			}
-			name := core.StructField(fa.X.Type(), fa.Field).Name()
+			name := core.CanonFieldOf(fa.X.Type(), fa.Field)
 			if name == "dynamicRefAnchor" {
 				anchorSt = st
 			}
